@@ -59,6 +59,7 @@ class Extract:
         self.names = {}
         self.acc_init = {}
         self.local_stmts = []
+        self.alias = {}      # hid of `let t = &mut A[idx]` -> Access
 
     # -- normaliser with access capture
     def norm(self, n, reads):
@@ -103,6 +104,41 @@ class Extract:
         for s in nodes:
             self.stmt(s, loops, guards)
 
+    def opt_expr(self, n, env=None, depth=0):
+        """Option-valued index arithmetic: `X.checked_sub(Y)` (possibly behind a crate-local helper) -> (X - Y, guard X >= Y)"""
+        n = strip(n)
+        env = self.env if env is None else env
+        N = e1.Norm(self.c, env)
+        if n.get("k") == "mcall" and n["name"] == "checked_sub":
+            a, b = N.norm(n["recv"]), N.norm(n["args"][0])
+            return a - b, Rat.atom(e1.cmp_atom("Ge", a, b))
+        if n.get("k") in ("call", "mcall") and depth < 3:
+            callee = n.get("callee", "")
+            callee = callee[5:] if callee.startswith("Self:") else callee
+            fn = self.c.fns.get(callee)
+            args = n["args"] if n["k"] == "call" else [n["recv"]] + list(n["args"])
+            if fn is not None and fn.get("output", "").startswith("std::option::Option<usize>") and len(fn["params"]) == len(args):
+                sub = {}
+                for p_, a_ in zip(fn["params"], args):
+                    while p_.get("k") in ("ref", "deref"):
+                        p_ = p_["p"]
+                    if p_.get("k") != "bind":
+                        return None
+                    sub[p_["hid"]] = N.norm(a_)
+                b = fn["body"]
+                while b.get("k") == "blk":
+                    b = b["b"]
+                Ns = e1.Norm(self.c, sub)
+                for st in b["stmts"]:
+                    if st.get("k") == "let" and st["pat"].get("k") == "bind" and st["init"] is not None:
+                        sub[st["pat"]["hid"]] = Ns.norm(st["init"])
+                    else:
+                        return None
+                if b["tail"] is None:
+                    return None
+                return self.opt_expr(b["tail"], sub, depth + 1)
+        return None
+
     def bind_let(self, s, guards):
         pat, init = s["pat"], s["init"]
         if init is None:
@@ -111,14 +147,40 @@ class Extract:
         p = pat
         while p.get("k") in ("ref", "deref"):
             p = p["p"]
+        # `let Some(x) = <option expr> else { continue }`
+        if p.get("k") == "tstruct" and p["path"].endswith("::Some") and len(p["ps"]) == 1 and s.get("els") is not None:
+            try:
+                oe = self.opt_expr(init)
+            except ValueError:
+                oe = None
+            b_ = pat_binds(p)
+            if oe is not None and len(b_) == 1:
+                self.env[b_[0][1]] = oe[0]
+                guards.append(oe[1])
+                return
         if p.get("k") == "bind":
+            # `let t = &mut A[idx]`: alias of an array cell
+            raw = init
+            while raw.get("k") == "blk" and not raw["b"]["stmts"]:
+                raw = raw["b"]["tail"]
+            if raw.get("k") == "ref" and raw.get("mut") and strip(raw).get("k") == "index":
+                reads = {}
+                try:
+                    self.norm(strip(raw), reads)
+                except ValueError:
+                    reads = {}
+                if len(reads) == 1:
+                    self.alias[p["hid"]] = list(reads.values())[0]
+                    return
             # checked_sub idiom
             if i.get("k") == "match":
-                sc = strip(i["scrut"])
-                if sc.get("k") == "mcall" and sc["name"] == "checked_sub":
-                    a, b = self.plain(sc["recv"]), self.plain(sc["args"][0])
-                    self.env[p["hid"]] = a - b
-                    guards.append(Rat.atom(e1.cmp_atom("Ge", a, b)))
+                try:
+                    oe = self.opt_expr(i["scrut"])
+                except ValueError:
+                    oe = None
+                if oe is not None:
+                    self.env[p["hid"]] = oe[0]
+                    guards.append(oe[1])
                     return
             if i.get("mac") == "vec" or (i.get("k") == "call" and i["callee"].endswith("vec::from_elem")):
                 ext = []
@@ -158,6 +220,16 @@ class Extract:
             for q, x in zip(p["ps"], i["xs"]):
                 self.bind_let({"pat": q, "init": x}, guards)
             return
+        if p.get("k") == "tuple" and i.get("k") in ("local", "field") and (self.c.ty(i) or "").replace("&", "").startswith("("):
+            try:
+                base = e1.Norm(self.c, self.env).place_name(i)
+            except ValueError:
+                base = None
+            if base is not None:
+                for pos, q in enumerate(p["ps"]):
+                    for nm, h in pat_binds(q):
+                        self.env[h] = Rat.atom("%s.%d" % (base, pos))
+                return
         if p.get("k") == "tuple" and i.get("k") == "match":
             # let (a, b) = match X { Pattern(.., h, w) => (*h, *w), _ => panic }
             for arm in i["arms"]:
@@ -256,7 +328,9 @@ class Extract:
                     st.reads[a] = acc
             l = strip(s["l"])
             treads = {}
-            if l.get("k") == "index":
+            if l.get("k") == "local" and l["hid"] in self.alias:
+                st.target = self.alias[l["hid"]]
+            elif l.get("k") == "index":
                 v = self.norm(l, treads)
                 if len(treads) == 1:
                     st.target = list(treads.values())[0]
